@@ -19,5 +19,7 @@ PROPS = {
                 model_files=TREE_MODEL + ["Keys", "Decrypt", "P_C07"]),
     "C08": mk(["acceptance of every conforming layout is established by the correspondence run and the spec oracle over the generated layouts (partial as a theorem: it needs a canonicalisation model, see DESIGN.md)"]),
     "C10": mk(),
-    "C20": mk(["the pre-decoder is xml.Unmarshal on the raw bytes: modelled as the schema interpreter on the raw token view (duplicate attributes preserved)"]),
+    "C20": dict(mk(["the pre-decoder is xml.Unmarshal on the raw bytes: modelled as the schema interpreter on the raw token view (duplicate attributes preserved)",
+                    "C20_source_DecodeUnverified*_is_the_model: the bodies of the two unverified decoders are translated from decode_response.go on every run (GenDeflate.v) and proved equal to base64 + Deflate.maybe_deflate with the default limit over an xml.Unmarshal-of-bytes oracle (the tokenizer in front of the schema interpreter is not modelled)"]),
+                model_files=TREE_MODEL + ["Deflate", "GenPreludeD", "GenPreludeT", "GenPreludeDeflate", "GenDeflate", "P_GenDeflate"]),
 }
